@@ -62,8 +62,11 @@ func (publisherSelf *PublisherDef[T]) Unsubscribe(s *Subscription[T]) {
 		for i, v := range subscribers {
 			if v == s {
 				isAnyMatching = true
-				subscribers = append(subscribers[:i], subscribers[i+1:]...)
-				publisherSelf.subscribers = subscribers
+				// Copy on write(a Publish() in progress iterates over the old slice)
+				newSubscribers := make([]*Subscription[T], 0, len(subscribers)-1)
+				newSubscribers = append(newSubscribers, subscribers[:i]...)
+				newSubscribers = append(newSubscribers, subscribers[i+1:]...)
+				publisherSelf.subscribers = newSubscribers
 				break
 			}
 		}
